@@ -234,3 +234,18 @@ Print Assumptions C16_free_sectors_sound.
 
 Example C16_apply_acts_example : apply_acts [ASwap 1 3; ATrim 2; AAppend] [[1]; [2]; [3]; [4]; [5]]%N [[9%N]] = Some [[1]; [4]; [3]; [9]]%N.
 Proof. exact apply_acts_example. Qed.
+
+(* ---- single leaves of a sector (rhp/v4 BuildSectorProof / VerifyLeafProof, rhp/v2 BuildProof over one sector) ---- *)
+(* these call the sector-range builder and verifier with the 65536 leaf hashes of a sector, so they are instances: the
+   proof built for leaf i of any sector is accepted with that leaf's hash, and an accepted (leaf hash, proof) pair is the
+   true leaf hash with the built proof, or a collision is exhibited *)
+Theorem C16_leaf_proof_complete : forall H (ls : list hash) i, N.of_nat (length ls) = 65536%N -> (i < 65536)%N ->
+  verify_range_proof H (build_range_proof H ls i (i + 1)) [nth (N.to_nat i) ls zero_hash] i (i + 1) 65536 (mroot H ls) = true.
+Proof. exact leaf_proof_complete. Qed.
+Print Assumptions C16_leaf_proof_complete.
+
+Theorem C16_leaf_proof_sound : forall H (ls : list hash) i proof leaf, N.of_nat (length ls) = 65536%N -> (i < 65536)%N ->
+  verify_range_proof H proof [leaf] i (i + 1) 65536 (mroot H ls) = true ->
+  (leaf = nth (N.to_nat i) ls zero_hash /\ proof = build_range_proof H ls i (i + 1)) \/ RgSound.NodeCollision H.
+Proof. exact leaf_proof_sound. Qed.
+Print Assumptions C16_leaf_proof_sound.
